@@ -187,11 +187,21 @@ class Environment(object):
     def close(self):
         """Shutdown server"""
 
-        try:
-            self.conn
-        except AttributeError:
-            pass
-        else:
-            self.conn.send_bytes(dumps(('close', (), {})))
-            self.conn.close()
-            del self.conn
+        with self.prepare_lock:
+            # a start in flight would bring up a server nobody stops
+            prepare_thread = self.prepare_thread
+            if prepare_thread:
+                prepare_thread.join()
+
+            try:
+                self.conn
+            except AttributeError:
+                pass
+            else:
+                try:
+                    self.conn.send_bytes(dumps(('close', (), {})))
+                except (OSError, EOFError):
+                    pass  # the server is already gone
+                finally:
+                    self.conn.close()
+                    del self.conn
